@@ -14,7 +14,7 @@ use scpi::tree::prelude::*;
 
 fn expect_dec(out: &[u8], v: i128) -> bool {
     let mut b = [0u8; 40];
-    let n = spec_dec(v, &mut b);
+    let n = spec_dec32(v as i32, &mut b);
     bytes_eq(out, &b[..n])
 }
 
